@@ -24,6 +24,8 @@ type Job struct {
 	TransLo int      ` + "`json:\"trans_lo\"`" + `
 	TransHi int      ` + "`json:\"trans_hi\"`" + `
 	Fuel    int      ` + "`json:\"fuel\"`" + `
+	Histories   [][]string ` + "`json:\"histories\"`" + `
+	HistoryMode string     ` + "`json:\"history_mode\"`" + `
 }
 
 type Out struct {
@@ -34,6 +36,8 @@ type Out struct {
 	Dump   [][]int     ` + "`json:\"dump,omitempty\"`" + `
 	Trans  []int       ` + "`json:\"trans,omitempty\"`" + `
 	Err    string      ` + "`json:\"err,omitempty\"`" + `
+	History []string   ` + "`json:\"history,omitempty\"`" + `
+	Results []rt.Result ` + "`json:\"results,omitempty\"`" + `
 }
 
 var capFile *os.File
@@ -61,7 +65,7 @@ func capture(f func()) string {
 }
 
 func main() {
-	if len(os.Args) > 1 && os.Args[1] == "sched" {
+	if len(os.Args) > 3 && os.Args[1] == "sched" {
 		schedMain(os.Args[2], os.Args[3])
 		return
 	}
@@ -117,6 +121,30 @@ func main() {
 			}
 			rt.Cur = nil
 			enc.Encode(Out{Pkg: j.Pkg, Input: in, Kind: "run", Res: &res})
+		}
+		for _, h := range j.Histories {
+			var rs []rt.Result
+			var ctx interface{}
+			for k, in := range h {
+				run := rt.Begin(fuel)
+				var res rt.Result
+				switch j.HistoryMode {
+				case "ctx-reinit": // one context, ParserInit() before every parse but the first
+					if ctx == nil {
+						ctx = p.NewCtx()
+					}
+					res = p.RunCtx(ctx, in, false, run, k > 0)
+				case "ctx-fresh": // a fresh context per parse
+					res = p.RunCtx(p.NewCtx(), in, false, run, false)
+				case "first-noinit": // rely on the package's init() for the first parse
+					res = p.Run(in, false, run, k > 0)
+				default: // ParserInit() before every parse
+					res = p.Run(in, false, run, true)
+				}
+				rt.Cur = nil
+				rs = append(rs, res)
+			}
+			enc.Encode(Out{Pkg: j.Pkg, Kind: "history", History: h, Results: rs})
 		}
 	}
 	w.Flush()
